@@ -24,6 +24,7 @@ import MajoranaVerif.Props.C01
 import MajoranaVerif.Proofs.MsiCoherence
 import MajoranaVerif.Proofs.Mvp60LdRun
 import MajoranaVerif.Proofs.Mvp60LdOk
+import MajoranaVerif.Proofs.Mvp60LdTerm
 import MajoranaVerif.Proofs.Mvp60LdWitness
 open GoInt Model Model.Seq Model.Mmu Model.Mvp3 LineCache Proofs.Mmu Proofs.Mvp3 Proofs.Refine
 
@@ -532,5 +533,60 @@ theorem mvp60_ret_overtaken_fixed :
   ⟨Proofs.Mvp60LdWitness.ret_wf, Proofs.Mvp60LdWitness.ret_classR, Proofs.Mvp60LdWitness.ret_spec,
    Proofs.Mvp60LdWitness.ret_class.1, Proofs.Mvp60LdWitness.ret_class.2, Proofs.Mvp60LdWitness.ret_seq, Proofs.Mvp60LdWitness.ret_p1,
    Proofs.Mvp60LdWitness.ret_p2, Proofs.Mvp60LdWitness.ret_p4⟩
+
+/-- **Totality for MVP-6.0 on straight-line programs with memory reads and `ret`**: for every parsed program of
+`Model.Mvp60.StraightLineLdR`, every initial state related to a specification machine (memory not larger than 2^31 − 64 bytes)
+with FRESH scoreboards, and every number `K ≥ 1` of execute and write units: if the specification run is well-formed and ends,
+the run of the model ends within some tick budget — with `ret` or past the end, never with a Go panic (no deadlock, no
+livelock; straight-line programs cannot raise a defined error).
+
+Why the out-of-order pipeline always moves (`Proofs/Mvp60LdLive.lean`, `Proofs/Mvp60LdTerm.lean`): a measure over the whole
+pipeline (`Proofs.Mvp60Ld.psiN`: the fetch unit and the decode bus as in R60c, 406 per runner in the control unit, 403 per runner
+on the execute bus, per execute unit 400 for a held runner that has not been looked up and 3 + the countdown for one that waits
+for L3 or memory, 1 per result on the write bus) never grows and decreases in every tick that does not end the run
+(`tick_normal`, `tick_retA`; the second drain loop after a `ret` by `2·|buffer| + |queue|` of the write bus, `tick_retB`).  A
+unit that makes no progress is idle with nothing readable on the execute bus, or holds a runner it cannot prepare: no room on
+the write bus (then a write unit takes a result in this tick — what waits in a bus buffer is due at the next `Connect`), or its
+line is being fetched (then the fetching unit counts down: `PendMw`, every pending line is being fetched by a unit).  With all
+units idle and the execute bus empty the control unit issues the oldest runner — nothing in flight means no scoreboard entry
+(`BackU`, the converse of `BackO.sbW/sbR`) —, or the decode unit decodes, or the fetch unit emits or counts down; or everything
+is empty and the run ends.  A decode unit that has seen the `ret` cannot be the reason of a standstill in the normal loop: the
+`ret` is then in flight (`RetPend`). -/
+theorem mvp60_readonly_total (app : App) (hw : WfApp app) (hcls : Model.Mvp60.StraightLineLdR app = true)
+    (ctx : Model.Context) (m : Spec.Machine) (hR : Rel ctx m) (hmsz : m.mem.size + 64 ≤ 2 ^ 31)
+    (hpw : ∀ r, GoMap.get1 ctx.PendingWriteRegisters r = 0) (hpr : ∀ r, GoMap.get1 ctx.PendingReadRegisters r = 0)
+    (K : Nat) (hK : 1 ≤ K) (fuel : Nat) (hwf : ∀ why, (Spec.run (specProg app) m fuel).stop ≠ .notWf why) :
+    ∃ ticks hk, (Model.Mvp60.run app ctx K K ticks).halt = some hk ∧ ∀ w, hk ≠ .panic w := by
+  have hp := (Proofs.Mvp60Ld.progLd_of_spec app hw hcls ctx m hR hmsz fuel hwf).1
+  obtain ⟨ticks, hne⟩ := Proofs.Mvp60Ld.mvp60_ld_terminates app ctx hp K hK hpw hpr
+  cases hh : (Model.Mvp60.run app ctx K K ticks).halt with
+  | none => exact absurd hh hne
+  | some hk =>
+    refine ⟨ticks, hk, hh, fun w hc => ?_⟩
+    subst hc
+    exact Proofs.Mvp60Ld.mvp60_ld_never_panics app ctx hp K ticks hpw hpr w hh
+
+/-- **safety and totality together** for the class `StraightLineLdR`, every number `K ≥ 1` of execute and write units: every
+way a run of the model ends agrees with the specification run, and when the specification run is well-formed and ends, the
+run of the model ends -/
+theorem mvp60_readonly_correct_total (app : App) (hw : WfApp app) (hcls : Model.Mvp60.StraightLineLdR app = true)
+    (ctx : Model.Context) (m : Spec.Machine) (hR : Rel ctx m) (hmsz : m.mem.size + 64 ≤ 2 ^ 31)
+    (hpw : ∀ r, GoMap.get1 ctx.PendingWriteRegisters r = 0) (hpr : ∀ r, GoMap.get1 ctx.PendingReadRegisters r = 0)
+    (K : Nat) (hK : 1 ≤ K) (fuel : Nat) :
+    (∀ (ticks : Nat) (hk : Halt), (Model.Mvp60.run app ctx K K ticks).halt = some hk →
+      Props.C01.Agree4 (Spec.run (specProg app) m fuel) hk (Model.Mvp60.run app ctx K K ticks).final.ctx) ∧
+    ((∀ why, (Spec.run (specProg app) m fuel).stop ≠ .notWf why) →
+      ∃ ticks hk, (Model.Mvp60.run app ctx K K ticks).halt = some hk ∧ ∀ w, hk ≠ .panic w) :=
+  ⟨fun ticks hk hh => mvp60_readonly_retany_safe app hw hcls ctx m hR hmsz hpw hpr K fuel ticks hk hh,
+   fun hwf => mvp60_readonly_total app hw hcls ctx m hR hmsz hpw hpr K hK fuel hwf⟩
+
+/-- Non-vacuity of the totality hypotheses: `Proofs.Mvp60LdWitness.retApp` is well-formed and in the class, its specification run
+ends with `ret`, the fresh context has empty scoreboards -/
+example : WfApp Proofs.Mvp60LdWitness.retApp ∧ Model.Mvp60.StraightLineLdR Proofs.Mvp60LdWitness.retApp = true ∧
+    (Spec.run (specProg Proofs.Mvp60LdWitness.retApp)
+      { regs := Array.replicate 32 0#32, mem := ((List.range 256).map (fun i => BitVec.ofNat 8 (i + 1))).toArray } 50).stop = .ret ∧
+    (∀ r, GoMap.get1 Proofs.Mvp60LdWitness.ctxM.PendingReadRegisters r = 0) ∧
+    (∀ r, GoMap.get1 Proofs.Mvp60LdWitness.ctxM.PendingWriteRegisters r = 0) :=
+  ⟨Proofs.Mvp60LdWitness.ret_wf, Proofs.Mvp60LdWitness.ret_classR, Proofs.Mvp60LdWitness.ret_spec, fun _ => rfl, fun _ => rfl⟩
 
 end Props.C05
